@@ -207,6 +207,19 @@ def build(reg, src):
         return res
     reg.extra_checks.append(check_literal)
 
+    # a dictionary bound to a second name IS the same object (e::d): the interpreter stores the value it is given (C09's contract of
+    # KlongInterpreter.__setitem__, through which the Define verb goes), re-verified here
+    def binding_keeps_identity(ctx):
+        from pyvc.subverify import subverify
+        from contracts import c09
+        from replay import c10 as rp10
+        key = 'klongpy/interpreter.py::KlongInterpreter.__setitem__'
+        rows, _ = subverify(src, 'C10', c09, [key], replay=rp10.replay_dict, why='klong[name]=v binds name to v itself (no copy)')
+        ctx['eng'].verified[key] = dict(sha=src.sha(src.find(key)), backend='z3 (contract of contracts/c09.py)')
+        return rows
+    binding_keeps_identity.__name__ = 'binding-keeps-identity'
+    reg.extra_checks.append(binding_keeps_identity)
+
     from replay import c10 as rp
     reg.replays.append((r'.', rp.replay_dict))
 
